@@ -1,13 +1,17 @@
 #!/bin/bash
 # usage: try_seeded.sh <patch.diff> <tier> <Cxx> [<Cxx>...]
-# Applies a seeded change to /repo, runs the given checks, and undoes the change straight afterwards.
+# Runs the given checks against a seeded change WITHOUT touching /repo: the patch is applied to a scratch worktree,
+# the harness is built against it (VERIF_REPO) and all output goes to a scratch VERIF_OUT; both are removed afterwards.
+# (The prescribed in-place way - git -C /repo apply; run; git -C /repo checkout -- . - is tools/try_seeded_inplace.sh.)
 set -u
-patch=$1; tier=$2; shift 2
+patch=$(realpath "$1"); tier=$2; shift 2
+wt=/tmp/wt/try-$$; out=/tmp/wt/try-$$-out
+git -C /repo worktree add -q --detach $wt HEAD || exit 2
+trap 'git -C /repo worktree remove --force '$wt'; rm -rf '$out EXIT
+git -C $wt apply "$patch" || { echo "patch does not apply"; exit 2; }
+mkdir -p $out
 cd /verif
-if ! git -C /repo diff --quiet; then echo "/repo has uncommitted changes; refusing"; exit 2; fi
-git -C /repo apply "$patch" || { echo "patch does not apply"; exit 2; }
-trap 'git -C /repo checkout -- . ; echo "(reverted /repo)"' EXIT
 for p in "$@"; do
-  out=$(VERIF_SEED=${VERIF_SEED:-1} ./run.sh "$p" "$tier" 2>&1); rc=$?
-  echo "== $p $tier exit=$rc"; echo "$out" | grep -E "^(VIOLATION|KNOWN|INCONCLUSIVE|OK|BUILD|  case)" | head -6 | cut -c1-400
+  o=$(VERIF_SEED=${VERIF_SEED:-1} VERIF_REPO=$wt VERIF_OUT=$out ./run.sh "$p" "$tier" 2>&1); rc=$?
+  echo "== $p $tier exit=$rc"; echo "$o" | grep -E "^(VIOLATION|KNOWN|INCONCLUSIVE|OK|BUILD|  case)" | head -6 | cut -c1-400
 done
